@@ -1,6 +1,9 @@
 package harness
 
 import (
+	"sort"
+	"github.com/google/badwolf/bql/table"
+	"github.com/google/badwolf/triple/literal"
 	"encoding/json"
 	"fmt"
 	"strings"
@@ -51,7 +54,8 @@ func (h *parserHarness) Gen(r *Rand, tier string, clean bool) any {
 		if r.Chance(0.7) {
 			st := genStmt(r, u, names, o, []int{40, 12, 12, 4, 4, 14, 10, 4})
 			if st.Kind == "select" && r.Chance(0.3) {
-				st.Q.Having = []string{`?b1 = ?b1`, `not (?b1 = ?b2)`, `(?b1 < "3"^^type:int64) and (?b2 > "1"^^type:int64)`, `?b1 > 2010-06-01T00:00:00Z`}[r.Intn(4)]
+				st.Q.Having = []string{`?b1 = ?b1`, `not (?b1 = ?b2)`, `(?b1 < "3"^^type:int64) and (?b2 > "1"^^type:int64)`, `?b1 > 2010-06-01T00:00:00Z`,
+					`?b1 = "alice"^^type:text`, `?b1 = "Alice"^^type:text`, `(?b2 = "a"^^type:text) or (?b1 < "B"^^type:text)`, `(?b2 = "A"^^type:text) or (?b1 < "b"^^type:text)`}[r.Intn(8)]
 			}
 			toks, origin = tokSplit.Split(st.Text(), -1), "structured:"+st.Kind
 		} else {
@@ -71,6 +75,14 @@ func (h *parserHarness) Gen(r *Rand, tier string, clean bool) any {
 		}
 		c.Texts = append(c.Texts, strings.Join(toks, " "))
 		c.Origins = append(c.Origins, origin)
+		if origin == "structured:select" && r.Chance(0.15) {
+			// a near-duplicate follows: the same statement with the letter case of one quoted text flipped (anything a
+			// parser keeps per text - a memo, an interned token - must tell them apart)
+			if v := flipQuotedCase(r, toks); v != nil {
+				c.Texts = append(c.Texts, strings.Join(v, " "))
+				c.Origins = append(c.Origins, "structured:select|near-duplicate")
+			}
+		}
 	}
 	return c
 }
@@ -132,6 +144,68 @@ func (h *parserHarness) Shrink(ci any) []any {
 	return out
 }
 
+// flipQuotedCase returns the tokens with the letters inside one text literal changed in case (nil: none found).
+func flipQuotedCase(r *Rand, toks []string) []string {
+	var idx []int
+	for i, t := range toks {
+		if strings.HasSuffix(t, `"^^type:text`) && strings.HasPrefix(t, `"`) && strings.ToUpper(t[:len(t)-11]) != strings.ToLower(t[:len(t)-11]) {
+			idx = append(idx, i)
+		}
+	}
+	if len(idx) == 0 {
+		return nil
+	}
+	out := append([]string{}, toks...)
+	i := idx[r.Intn(len(idx))]
+	body := out[i][:len(out[i])-11]
+	if body == strings.ToUpper(body) {
+		body = strings.ToLower(body)
+	} else {
+		body = strings.ToUpper(body)
+	}
+	out[i] = body + out[i][len(out[i])-11:]
+	return out
+}
+
+// havingProbeRows: rows on which a statement's HAVING evaluator is run, so that what the evaluator DOES is part of what
+// the statement means (its token list alone does not show an evaluator taken from another statement).
+func havingProbeRows(st *semantic.Statement) []table.Row {
+	names := map[string]bool{}
+	for _, ce := range st.HavingExpression() {
+		if !ce.IsSymbol() && ce.Token().Type == lexer.ItemBinding {
+			names[ce.Token().Text] = true
+		}
+	}
+	var bs []string
+	for n := range names {
+		bs = append(bs, n)
+	}
+	sort.Strings(bs)
+	lit := func(t literal.Type, v any) *table.Cell {
+		l, err := literal.DefaultBuilder().Build(t, v)
+		if err != nil {
+			panic(err)
+		}
+		return &table.Cell{L: l}
+	}
+	t1, t2 := T1, T2
+	pool := []*table.Cell{lit(literal.Int64, int64(1)), lit(literal.Int64, int64(3)), lit(literal.Int64, int64(-5)), lit(literal.Float64, 2.5),
+		lit(literal.Text, "alice"), lit(literal.Text, "Alice"), lit(literal.Text, "a"), lit(literal.Text, "A"), lit(literal.Text, "b"), lit(literal.Text, "B"),
+		{T: &t1}, {T: &t2}, {N: V.Nodes[0]}, {S: table.CellString("x")}}
+	var rows []table.Row
+	for k := 0; k < len(pool)+4; k++ {
+		row := table.Row{}
+		for j, b := range bs {
+			row[b] = pool[(k+j*5)%len(pool)]
+			if k >= len(pool) {
+				row[b] = pool[(k*3)%len(pool)] // every binding the same value
+			}
+		}
+		rows = append(rows, row)
+	}
+	return rows
+}
+
 // renderStatement renders everything a statement means, pointer free.
 func renderStatement(st *semantic.Statement) string {
 	var b strings.Builder
@@ -155,6 +229,19 @@ func renderStatement(st *semantic.Statement) string {
 			fmt.Fprintf(&b, "having sym %s\n", ce.Symbol())
 		} else {
 			fmt.Fprintf(&b, "having tok %s %q\n", ce.Token().Type, ce.Token().Text)
+		}
+	}
+	if ev := st.HavingEvaluator(); st.HasHavingClause() && ev != nil {
+		for k, row := range havingProbeRows(st) {
+			func() {
+				defer func() {
+					if p := recover(); p != nil {
+						fmt.Fprintf(&b, "having eval %d panics\n", k)
+					}
+				}()
+				ok, err := ev.Evaluate(row)
+				fmt.Fprintf(&b, "having eval %d = %v err=%v\n", k, ok, err != nil)
+			}()
 		}
 	}
 	fmt.Fprintf(&b, "lookup=%s\nlimit=%v/%d\n", st.GlobalLookupOptions().String(), st.IsLimitSet(), st.Limit())
